@@ -25,6 +25,36 @@ Require Import Verif.Model.Base Verif.Model.Decision Verif.Model.Level Verif.Mod
   Verif.Model.Adapters.
 Require Import Verif.Gen.Tables Verif.Gen.Decisions.
 Require Import Verif.Proofs.LevelP Verif.Proofs.AdaptersP.
+Require Import Verif.Model.GoSem Verif.Model.AdaptRef.
+Require Verif.Gen.Handlers Verif.Proofs.GenAdaptP.
+
+(* ---- the source against the model: handler4LogSlog.with as it is in /repo now (translated on every run,
+   Gen/Handlers.v).  s.ops is a slice of HEAP cells (array, offset, length, capacity) and the heap the list of
+   arrays, so that two slices can share a backing array - which is what `append(s.ops, op)` would do when the
+   parent has spare capacity.  [h_ok]: the parent's slice lies inside its array. ---- *)
+
+(* with(op) allocates a NEW array holding the receiver's ops followed by op; no existing array is written *)
+Theorem C15_gen_handler_with : forall zero growcap lg ops op heap, h_ok heap ops = true ->
+  Handlers.handler_with zero growcap lg ops op heap = handler_with_ref zero growcap lg ops op heap.
+Proof. exact GenAdaptP.gen_handler_with. Qed.
+Print Assumptions C15_gen_handler_with.
+
+(* hence two handlers derived from ONE parent do not disturb each other: after parent.with(a) and then
+   parent.with(b), the first still reads parent ++ [a], the second parent ++ [b], the parent is unchanged *)
+Theorem C15_gen_siblings_independent : forall zero growcap lg ops a b heap, h_ok heap ops = true ->
+  match Handlers.handler_with zero growcap lg ops a heap with
+  | Some ((_, ops1), heap1) =>
+      match Handlers.handler_with zero growcap lg ops b heap1 with
+      | Some ((_, ops2), heap2) =>
+          h_read heap2 ops1 = h_read heap ops ++ [a] /\ h_read heap2 ops2 = h_read heap ops ++ [b]
+          /\ h_read heap2 ops = h_read heap ops
+      | None => False
+      end
+  | None => False
+  end.
+Proof. exact GenAdaptP.siblings_independent. Qed.
+Print Assumptions C15_gen_siblings_independent.
+
 
 (* ---- ties: the five decision functions translated from the source equal the
    references the theorems are about, for all arguments ---- *)
